@@ -56,6 +56,11 @@ Proof. repeat split; reflexivity. Qed.
 
 Definition ceq (a b : ch) : bool := N.eqb a b.
 
+(* list reversal in linear time (List.rev is quadratic when run); rv l = rev l is [rv_rev] *)
+Definition rv {A} (l : list A) : list A := rev_append l [].
+Lemma rv_rev {A} (l : list A) : rv l = rev l.
+Proof. unfold rv. symmetry. apply rev_alt. Qed.
+
 Fixpoint str_eqb (a b : str) : bool :=
   match a, b with
   | [], [] => true
@@ -96,13 +101,13 @@ Definition lower (s : str) : str := map lower_ch s.
 (* str.strip(), lstrip, rstrip with no argument: characters with isspace *)
 Fixpoint lstrip (s : str) : str :=
   match s with [] => [] | c :: r => if isspace c then lstrip r else s end.
-Definition rstrip (s : str) : str := rev (lstrip (rev s)).
+Definition rstrip (s : str) : str := rv (lstrip (rv s)).
 Definition strip (s : str) : str := rstrip (lstrip s).
 
 (* strip with an explicit character set *)
 Fixpoint lstrip_set (p : ch -> bool) (s : str) : str :=
   match s with [] => [] | c :: r => if p c then lstrip_set p r else s end.
-Definition strip_set (p : ch -> bool) (s : str) : str := rev (lstrip_set p (rev (lstrip_set p s))).
+Definition strip_set (p : ch -> bool) (s : str) : str := rv (lstrip_set p (rv (lstrip_set p s))).
 
 Fixpoint starts_with (p s : str) : bool :=
   match p, s with
@@ -110,7 +115,7 @@ Fixpoint starts_with (p s : str) : bool :=
   | x :: p', y :: s' => N.eqb x y && starts_with p' s'
   | _ :: _, [] => false
   end.
-Definition ends_with (p s : str) : bool := starts_with (rev p) (rev s).
+Definition ends_with (p s : str) : bool := starts_with (rv p) (rv s).
 
 Fixpoint mem_str (x : str) (l : list str) : bool :=
   match l with [] => false | y :: r => str_eqb x y || mem_str x r end.
